@@ -56,7 +56,8 @@ class RuleResult:
     def floor(self, name, count, minimum):
         """a rule that matches fewer instances than confirmed by hand is broken."""
         self.instances[name] = {'count': count, 'floor': minimum}
-        if count < minimum:
+        if count < minimum and not self.findings:
+            # (a rule that already reports a violation may have stopped counting early: the finding stands)
             raise AnalysisBroken('rule %s: %s matched %d instances, floor is %d'
                                  % (self.rule, name, count, minimum))
 
